@@ -35,13 +35,46 @@ pub enum Out {
     Panic(String),
 }
 
+/// One entry per explorer thread: the library call it is inside, and since when. A library call that does not return
+/// cannot be interrupted from inside the process; the watchdog thread reports it (with the input) and ends the process.
+pub struct InFlight {
+    pub since: Instant,
+    pub text: String,
+    pub cfg: Cfg,
+    pub width: usize,
+    pub range: Option<(Option<usize>, Option<usize>)>,
+}
+pub static IN_FLIGHT: Mutex<Vec<std::sync::Arc<Mutex<Option<InFlight>>>>> = Mutex::new(Vec::new());
+thread_local! {
+    static MY_SLOT: std::sync::Arc<Mutex<Option<InFlight>>> = {
+        let a = std::sync::Arc::new(Mutex::new(None));
+        IN_FLIGHT.lock().unwrap().push(a.clone());
+        a
+    };
+}
+
+/// the oldest library call that has been running for longer than `limit`, if any
+pub fn stuck_call(limit: Duration) -> Option<(String, Cfg, usize, Option<(Option<usize>, Option<usize>)>, Duration)> {
+    let slots = IN_FLIGHT.lock().unwrap();
+    for s in slots.iter() {
+        if let Some(e) = s.lock().unwrap().as_ref() {
+            if e.since.elapsed() > limit {
+                return Some((e.text.clone(), e.cfg, e.width, e.range, e.since.elapsed()));
+            }
+        }
+    }
+    None
+}
+
 pub fn run_format(text: &str, cfg: &Cfg, width: usize, range: Option<(Option<usize>, Option<usize>)>) -> (Out, Duration) {
     let config = cfg.to_config(width);
     let r = range.map(|(s, e)| Range::from_values(s, e));
     let t0 = Instant::now();
+    MY_SLOT.with(|m| *m.lock().unwrap() = Some(InFlight { since: t0, text: text.to_string(), cfg: *cfg, width, range }));
     IN_SUBJECT.with(|f| f.set(true));
     let res = std::panic::catch_unwind(std::panic::AssertUnwindSafe(|| format_code(text, config, r, OutputVerification::None)));
     IN_SUBJECT.with(|f| f.set(false));
+    MY_SLOT.with(|m| *m.lock().unwrap() = None);
     let dt = t0.elapsed();
     let out = match res {
         Ok(Ok(s)) => Out::Ok(s),
